@@ -92,14 +92,14 @@ class Check(PropertyCheck):
             "escape-sequence fragments and non-ASCII, (c) raw command lines over the same alphabet (split rule). distinct = distinct "
             "(kind, type, strings); non-trivial = at least one argument or a non-blank raw line.")
     budget = {"quick": 10000, "thorough": 300000}
-    time_budget = {"quick": 40, "thorough": 600}
+    time_budget = {"quick": 30, "thorough": 600}
     fingerprints = ["mitmproxy.command_lexer:quote", "mitmproxy.command_lexer:unquote", "mitmproxy.command:CommandManager.parse_partial",
                     "mitmproxy.command:CommandManager.execute", "mitmproxy.command:CommandManager.call_strings",
                     "mitmproxy.command:Command.prepare_args", "mitmproxy.command:parsearg", "mitmproxy.types:_StrType.parse",
                     "mitmproxy.types:_StrType._unescape", "mitmproxy.types:_ArgType.parse"]
     trusted_base = ["pyparsing Regex/Word/CharsNotIn/ZeroOrMore, re and codecs 'unicode-escape' as modelled by hand (Model/C45.lean)",
                     "unicodedata name lookup behind \\N{…} (parameter UniDb)"]
-    parallel = True
+    parallel = False
 
     # ------------------------------------------------------------------ generator
     def _rand(self, rng, lo=0, hi=8):
